@@ -270,7 +270,7 @@ class MessageType(TypeToken):
         fields = {}
         for name, token in self.fields.items():
             if token.is_message:
-                for subname, subtoken in token.leaf_fields():
+                for subname, subtoken in token.leaf_fields().items():
                     fields[f'{name}.{subname}'] = subtoken
             else:
                 fields[name] = token
